@@ -133,16 +133,19 @@ Record variant := {
                                    tolerates a registered class without _toplevel_properties (true; C17) *)
   vr_detect_default : bool;     (* detect_spec_version: a bundle without (or with empty) `objects` is 2.1 (true)
                                    or raises KeyError / ValueError (false; C17) *)
-  vr_d2s_ext_guard : bool       (* dict_to_stix2's extension scan skips non-dict values (true) or crashes (false; C17) *)
+  vr_d2s_ext_guard : bool;      (* dict_to_stix2's extension scan skips non-dict values (true) or crashes (false; C17) *)
+  vr_toplevel_needs_slot : bool;(* an UNREGISTERED toplevel-property-extension vouches for extra properties only on a type
+                                   that has an `extensions` property (true) or on every type (false; C02) *)
+  vr_ext_nonempty : bool        (* ExtensionsProperty refuses an empty dictionary (true) or lets it through (false; C02) *)
 }.
 Definition variant_pinned : variant :=
   {| vr_hex_z := false; vr_key_z := false; vr_sel_z := false; vr_hash_z := false; vr_interop_z := false; vr_uuid_canon := false; vr_year_pad := false;
      vr_sel_upper := false; vr_ref_flip_unreg := false; vr_parse_guard_custom := false; vr_ext_scan_guard := false;
-     vr_detect_default := false; vr_d2s_ext_guard := false |}.
+     vr_detect_default := false; vr_d2s_ext_guard := false; vr_toplevel_needs_slot := false; vr_ext_nonempty := false |}.
 Definition variant_repaired : variant :=
   {| vr_hex_z := true; vr_key_z := true; vr_sel_z := true; vr_hash_z := true; vr_interop_z := true; vr_uuid_canon := true; vr_year_pad := true;
      vr_sel_upper := true; vr_ref_flip_unreg := true; vr_parse_guard_custom := true; vr_ext_scan_guard := true;
-     vr_detect_default := true; vr_d2s_ext_guard := true |}.
+     vr_detect_default := true; vr_d2s_ext_guard := true; vr_toplevel_needs_slot := true; vr_ext_nonempty := true |}.
 
 (* What the constructor draws from outside: its clock reading (one per constructor call: microseconds
    since 0001-01-01T00:00:00Z), the text of uuid.uuid4() and the text of the uuid5 of a 2.1 observable's
